@@ -20,7 +20,7 @@ import (
 
 // fixes repaired in /repo so far (f2 f4 f6 f9): the model is asked for the same behaviour as the tree has.
 // After every fix: commit has landed the string is "1111" and the property theorems (about Fixes.all) apply.
-var verifyFx = "1001"
+var verifyFx = "1111"
 
 func init() {
 	if v := os.Getenv("VERIF_FX"); len(v) == 4 {
